@@ -660,6 +660,19 @@ def tensor_getattr(E, t, name, node=None):
         return Builtin(f"Tensor.{name}", lambda E2, *a, **k: tensor_method(E2, t, name, a, k, node))
     from . import cap
 
+    if name.endswith("_") and not name.endswith("__") and cap.tensor_has_attr(name):
+        # an in-place method the model does not cover: by PyTorch's naming convention it WRITES its receiver.
+        # Modelled conservatively: the write is recorded (frame conditions) and the contents become unknown.
+        def inplace(E2, *a, **k):
+            from .tm_index import _record_write, write_region
+
+            fresh = new_input(E2, E2.fresh_name(f"havoc_{name}").replace("#", "_"), t.dtype, list(t.shape), device=t.device)
+            ff = fresh.snap()
+            write_region(E2, t, lambda idx: z3.BoolVal(True), lambda idx: ff(idx), node)
+            _record_write(E2, t, node)
+            E2.log.append(("unmodelled-inplace", name))
+            return t
+        return Builtin(f"Tensor.{name}", inplace)
     if not cap.tensor_has_attr(name):
         raise_(E, "AttributeError", f"'Tensor' object has no attribute '{name}'", node)
     raise Unsupported(f"Tensor attribute '{name}' is not covered by the PyTorch model")
@@ -843,6 +856,9 @@ ATEN = {
     "all": _all, "equal": _equal,
     "isnan": _isfinite_like("isnan"), "isinf": _isfinite_like("isinf"), "isfinite": _isfinite_like("isfinite"),
     "is_same_size": lambda E, a, b: E.eq(tuple(a.shape), tuple(b.shape)),
+    "conv2d": lambda E, *a, **k: uninterpreted_function_result(E, "conv2d", a, k),
+    "layer_norm": lambda E, *a, **k: uninterpreted_function_result(E, "layer_norm", a, k),
+    "pad": lambda E, *a, **k: uninterpreted_function_result(E, "pad", a, k),
 }
 
 
